@@ -46,8 +46,9 @@ pub mod ghost {
         pub len: usize,
         /// bytes of the first emission
         pub bytes: [u8; CAP],
-        /// when true a device write may fail (arbitrary errno), as write(2) may
-        pub may_fail: bool,
+        /// when true the device refuses every write (errno), as write(2) may.  Concrete per
+        /// harness instance: a symbolic refusal destroys constant propagation in the callers.
+        pub refuse: bool,
         /// set when an emission was refused by the device
         pub failed: usize,
     }
@@ -56,26 +57,21 @@ pub mod ghost {
         events: 0,
         len: 0,
         bytes: [0; CAP],
-        may_fail: false,
+        refuse: false,
         failed: 0,
     };
 
-    pub fn reset(may_fail: bool) {
+    pub fn reset(refuse: bool) {
         unsafe {
             DEV.events = 0;
             DEV.len = 0;
             DEV.failed = 0;
-            DEV.may_fail = may_fail;
+            DEV.refuse = refuse;
         }
     }
 
-    #[cfg(kani)]
     fn refuse() -> bool {
-        unsafe { DEV.may_fail && kani::any::<bool>() }
-    }
-    #[cfg(not(kani))]
-    fn refuse() -> bool {
-        false
+        unsafe { DEV.refuse }
     }
 
     /// One write(2)/writev(2) on the fuse fd carrying the concatenation of `parts`.
